@@ -221,7 +221,7 @@ func init() {
 			}
 			return []*engine.Scenario{
 				mk("c12-small", small, rw("7", "1000"), []string{"3"}, []int{2, 1, 1, 2, 0}, 4),
-				mk("c12-mid", mid, rw("1000000"), []string{"500000"}, []int{2, 1, 1, 2, 0}, 4),
+				mk("c12-mid", mid, rw("1000000"), []string{"500000"}, []int{2, 1, 2, 2, 0}, 5),
 				mk("c12-huge", huge, rw("1", "1000000"), []string{"1000000000000000000"}, []int{1, 1, 2, 1, 0}, 4),
 			}
 		},
